@@ -15,7 +15,7 @@ PROP = "C08"
 RULE = ("random triples (target flow F = SYN + application request in 1-4 segments + FIN|ACK; other traffic H = 1-5 other TCP "
         "flows incl. tuples differing from F in exactly one field, validated and mid-request (HTTP, RPC, STUN, SSH, SMB), "
         "the IPv4-mapped twin of F's endpoints, SYN/FIN|ACK/RST/bare-ACK segments on F's own tuple, ICMP / ICMPv6 error messages quoting F's segments, rejected data segments on F's tuple before F is validated, UDP "
-        "requests, ARP, ICMP echo, router advertisements / solicitations / redirects / listener queries / ICMP errors about other flows; a random order-preserving interleaving). Each frame's canonical reply in the interleaving is "
+        "requests (incl. pairs of datagrams from two clients to one service that differ in one bit of their leading bytes), ARP, ICMP echo, router advertisements / solicitations / redirects / listener queries / ICMP errors about other flows; a random order-preserving interleaving). Each frame's canonical reply in the interleaving is "
         "compared with its reply when F (resp. H) runs alone on a fresh table. Non-trivial = interleavings where an accepted "
         "data segment of another flow falls between two segments of F; distinct = distinct abstract interleavings (kinds, "
         "flow indices, order).")
@@ -194,6 +194,20 @@ def triple(ctx, cfg, forced=None):
             elif rng.random() < 0.3:
                 c = rpc.gen_call(rng, prog=rpc.PMAP, vers=rng.choice([2, 2, 3, 4]), proc=rng.choice([1, 1, 2]), maxauth=8)     # SET / UNSET over UDP
                 noise.append((oe.udp(gen.rnd_port(rng), rng.choice([111, gen.rnd_port(rng)]), bytes([0x7A]) + c["msg"][1:]), "udp:pmap_set"))
+            elif rng.random() < 0.5:
+                # two clients asking the same service almost the same thing: the second datagram differs from the first in one
+                # bit of its leading bytes (DNS flags / id, STUN type / id, RPC xid / version ...).  Whatever a responder
+                # remembers of the first one (a cache of serialised answers, say) must not colour the answer to the second
+                apps = gen.app_requests(rng)
+                u = rng.choice([a for a in apps if a[0] == "dns"] * 6 + [a for a in apps if a[0].startswith(("stun", "rpc"))])[1]
+                t = bytearray(u)
+                t[rng.randrange(min(8, len(t))) if rng.random() < 0.8 else rng.randrange(len(t))] ^= 1 << rng.randrange(8)
+                o2 = gen.endp(rng, cfg, oe.v6)
+                o2 = pkt.Endp(o2.cmac, oe.smac, o2.cip, oe.sip)
+                udp_dp = gen.rnd_port(rng)
+                pair = [(oe.udp(gen.rnd_port(rng), udp_dp, u), "udp:twin"), (o2.udp(gen.rnd_port(rng), udp_dp, bytes(t)), "udp:twin")]
+                rng.shuffle(pair)
+                noise.extend(pair)
             else:
                 noise.append((oe.udp(gen.rnd_port(rng), gen.rnd_port(rng), rng.choice(gen.app_requests(rng))[1]), "udp"))
         elif k == 1:
@@ -254,7 +268,8 @@ def triple(ctx, cfg, forced=None):
     # flow-less traffic (UDP, ICMP, ARP) has no history at all: each such frame of H is answered in the interleaving exactly
     # as it is answered when it is the only frame the responder sees after a reset
     solo = [(pos, i) for pos, (w, i) in enumerate(order) if w == "H" and Hkall[i].split(":")[0] in ("udp", "echo", "arp")]
-    for pos, i in rng.sample(solo, min(3, len(solo))):
+    twins = [x for x in solo if Hkall[x[1]] == "udp:twin"]
+    for pos, i in twins + rng.sample(solo, min(3, len(solo))):
         want = execute(ctx, [Hall[i]])[0]
         ctx.stats["solo_comparisons"] += 1
         if want != inter[pos] and not mism:
